@@ -406,6 +406,24 @@ func init() {
 			h := hx(pre)
 			cases = append(cases, apiCase("token:eof", "NextToken", h), apiCase("token:eof", "NextTokenType", h), specCase("token:spec", "specToken "+h, tokenProjection(h)))
 		}
+		// type exclusivity on near-miss spellings: whatever NextTokenType says, a typed reader of another type must not succeed
+		for _, sp := range []string{"+1", "+0", " +42", "+1.5", "+.5", ".5", "-.5", "+", "-", "Infinity", "-Infinity", "NaN", "nan", "inf", "0x10", "1_000", "1,000", "٣",
+			"True", "TRUE", "False", "yes", "1", "0", "nil", "NULL", "Null", "undefined", "none", "'a'", "`a`", "a", "“a”", "nul", "tru", "fals", "\"null\"", "\"1\"", "[null]", "{}"} {
+			for _, suf := range []string{"", " ", ",", "]", "x"} {
+				d := []byte(sp + suf)
+				h := hx(d)
+				tk := runAPI("NextTokenType", []string{h})
+				for _, rd := range []struct{ op, types string }{{"ReadNull", " 1 "}, {"ReadBool", " 4 5 "}, {"ReadString", " 2 "}, {"ReadFloat64", " 3 "}, {"ReadInt64", " 3 "}, {"ReadInt32", " 3 "}, {"ReadUint64", " 3 "}, {"ReadUint32", " 3 "}} {
+					impl := runAPI(rd.op, []string{h})
+					cases = append(cases, Case{Line: rd.op + " " + h, Impl: impl, Class: "exclusive:" + rd.op})
+					c.Suite.Evaluations++
+					f := strings.Fields(tk)
+					if strings.HasPrefix(impl, "ok") && !(len(f) >= 2 && f[0] == "ok" && strings.Contains(rd.types, " "+f[1]+" ")) {
+						c.Suite.Violation(rd.op+" "+h, impl, "no success: NextTokenType says "+tk, "exclusive", "a typed reader succeeds on a token classified as another type")
+					}
+				}
+			}
+		}
 		for _, d := range byteNeighbourhood([]string{"null", " true", "false ", "\n\tnull", " \r", "[1]", "\"x\""}) {
 			h := hx(d)
 			cases = append(cases, apiCase("token:neighbourhood", "NextToken", h), apiCase("token:neighbourhood", "NextTokenType", h),
